@@ -5,6 +5,16 @@ import json, os, subprocess, sys, glob, re
 V = "/verif"
 EXTRA = {"C01-A": ["C13", "C12"], "C02-B": ["C10", "C12"], "C18-B": ["C10"], "C19-B": ["C14"], "C01-C": ["C04"], "C01-D": ["C08", "C20"],
          "C09-C": ["C13"], "C12-C": ["C13"], "C03-D": ["C05"], "C10-C": ["C11"], "C11-C": ["C13"], "C15-C": ["C01"], "C19-C": ["C14"], "C14-D": ["C04"]}   # cross-property detection worth recording
+# the checks rewrite evidence/<id>.json on every run; runs against a patched tree must not leave their (truncated)
+# records behind, so the directory is saved here and restored at the end
+import shutil, tempfile, atexit
+EVBACKUP = tempfile.mkdtemp(prefix="vf-evidence-")
+shutil.copytree(os.path.join(V, "evidence"), os.path.join(EVBACKUP, "evidence"))
+def _restore():
+    shutil.rmtree(os.path.join(V, "evidence"), ignore_errors=True)
+    shutil.copytree(os.path.join(EVBACKUP, "evidence"), os.path.join(V, "evidence"))
+    shutil.rmtree(EVBACKUP, ignore_errors=True)
+atexit.register(_restore)
 ids = sys.argv[1:] or sorted(os.path.basename(d) for d in glob.glob(V + "/seeded/*") if os.path.isdir(d))
 rows = []
 for i in ids:
